@@ -23,29 +23,67 @@ Definition phase2_ran (rs : list Rect) (r : Qc) (n : Z) : bool :=
   | _ => false
   end.
 
-(* same multiset of rectangles *)
-Fixpoint perm_rects (a b : list Rect) : bool :=
-  match a with
-  | [] => match b with [] => true | _ => false end
-  | x :: a' => match remove1 x b with Some b' => perm_rects a' b' | None => false end
-  end.
 Definition equals_greedy (rs : list Rect) (r : Qc) (n : Z) (out : list Rect) : bool :=
   match split_rectangles_greedy rs r n with Ok o => perm_rects o out | _ => false end.
 
 (* floorplanning_rectangles() as observed *)
 Definition fp_eqb (d : DieSt) (refin fixd : list Rect) : bool :=
-  rects_eqb (fst (floorplanning_rectangles d)) refin && rects_eqb (snd (floorplanning_rectangles d)) fixd.
+  perm_rects (fst (floorplanning_rectangles d)) refin && perm_rects (snd (floorplanning_rectangles d)) fixd.
 
-(* initial_grid: exact, or up to k roundings at the magnitude of the die *)
+(* the same die; the refinable regions as multisets (the property promises no order of the lists) *)
 Definition die_eqb (a b : DieSt) : bool :=
-  same_rect (bbox a) (bbox b) && rects_eqb (spec a) (spec b) && rects_eqb (ground a) (ground b) &&
+  same_rect (bbox a) (bbox b) && perm_rects (spec a) (spec b) && perm_rects (ground a) (ground b) &&
   rects_eqb (blockages a) (blockages b) && rects_eqb (fixedr a) (fixedr b).
+(* initial_grid: exact, or up to k roundings at the magnitude of the die (cells matched in any order:
+   distinct cells are a whole cell apart, far more than the tolerance) *)
+Fixpoint remove_close (k : Z) (scale : Qc) (x : Rect) (l : list Rect) : option (list Rect) :=
+  match l with
+  | [] => None
+  | y :: l' => if rect_close k scale x y then Some l' else option_map (cons y) (remove_close k scale x l')
+  end.
+Fixpoint perm_close (k : Z) (scale : Qc) (a b : list Rect) : bool :=
+  match a with
+  | [] => match b with [] => true | _ => false end
+  | x :: a' => match remove_close k scale x b with Some b' => perm_close k scale a' b' | None => false end
+  end.
 Definition die_close (k : Z) (scale : Qc) (a b : DieSt) : bool :=
-  same_rect (bbox a) (bbox b) && rects_eqb (spec a) (spec b) &&
-  list_eqb (rect_close k scale) (ground a) (ground b) &&
+  same_rect (bbox a) (bbox b) && perm_rects (spec a) (spec b) &&
+  perm_close k scale (ground a) (ground b) &&
   rects_eqb (blockages a) (blockages b) && rects_eqb (fixedr a) (fixedr b).
 Definition grid_agrees (exact : bool) (scale : Qc) (d : DieSt) (nrows ncols : Z) (d' : DieSt) : bool :=
   match initial_grid d nrows ncols with
   | Ok m => if exact then die_eqb m d' else die_close 16 scale m d'
   | _ => false
+  end.
+
+(* ---- histories of one Die object (Refine/DieOps.v) ---- *)
+From FrameModel Require Import Refine.DieOps Refine.DieOpsFacts.
+From FrameModel Require Cases.CmpC01.
+
+(* DieOpsFacts.die_inv, decided: the state the constructor left tiles the die *)
+Definition die_inv_b (d : DieSt) : bool :=
+  wfb (bbox d) && FrameModel.Cases.CmpC01.tiles_b (refinable d ++ blockages d ++ fixedr d) (bbox d).
+Lemma die_inv_b_sound d : die_inv_b d = true -> die_inv d.
+Proof.
+  unfold die_inv_b, die_inv. intro H. apply andb_true_iff in H. destruct H as [H1 H2]. split.
+  - apply FrameModel.Cases.CmpC01.wfb_wf. exact H1.
+  - apply FrameModel.Cases.CmpC01.tiles_b_sound. exact H2.
+Qed.
+
+(* an observed history from a state that tiles the die *)
+Definition history_ok (d0 : DieSt) (tr : list event) : bool := die_inv_b d0 && trace_ok d0 tr.
+
+(* a grid step whose cell size is not a binary fraction: the cells within 16 roundings *)
+Definition step_agrees (exact : bool) (scale : Qc) (d : DieSt) (op : die_op) (out : outcome) (d' : DieSt) : bool :=
+  match op, out with
+  | OGrid nr nc, Returned => grid_agrees exact scale d nr nc d'
+  | _, _ => step_ok d op out d'
+  end.
+
+(* phase 2 of every split step stopped as early as it could *)
+Fixpoint trace_tight (d : DieSt) (tr : list event) : bool :=
+  match tr with
+  | [] => true
+  | (OSplit r n, Returned, d') :: rest => die_split_tight d r n d' && trace_tight d' rest
+  | (_, _, d') :: rest => trace_tight d' rest
   end.
